@@ -132,8 +132,20 @@ def gen_flag(rng):
     return rng.choice(("0", "1"))
 
 
+def bint(rng, lo, hi):
+    """Integer draw biased towards the boundaries (lo, lo+1, hi), where conversions tend to break."""
+    c = rng.random()
+    if c < 0.2:
+        return lo
+    if c < 0.3:
+        return min(lo + 1, hi)
+    if c < 0.4:
+        return hi
+    return rng.randint(lo, hi)
+
+
 def gen_count(rng, hi=500):
-    return str(rng.randint(0, hi))
+    return str(bint(rng, 0, hi))
 
 
 def gen_attr_text(rng, lo=1, hi=24):
@@ -1146,7 +1158,7 @@ def res_groups_create(rng, req=None, variant=None):
 def _group_node(rng, gid):
     return N("group", {"id": gid, "creator": gen_jid(rng), "creation": gen_ts(rng),
                        "subject": gen_attr_text(rng), "s_t": gen_ts(rng), "s_o": gen_jid(rng)},
-             _group_children(rng, (None, None, "admin")))
+             _group_children(rng, (None, None, "admin", "superadmin")))
 
 
 def res_groups_info(rng, req=None, variant=None):
@@ -1197,7 +1209,7 @@ def res_sync(rng, req=None, variant=None):
     sync = {"sid": sid, "index": index, "last": "false" if variant == "last_false" else "true",
             "version": str(rng.randint(10 ** 15, 10 ** 16))}
     if maybe(rng):
-        sync["wait"] = str(rng.randint(0, 400000))
+        sync["wait"] = str(bint(rng, 0, 400000))
     children = []
 
     def user(n):
